@@ -575,4 +575,99 @@ theorem tile_wordCount {F : Int} : ∀ (l : List Seg) (p : Int), p < F → tileF
       push_cast
       omega
 
+/-! ### growth of the table: what every `fsg_history_entry_add` has to respect -/
+
+/-- local condition on an entry appended to `h` (`fsg_history_end_frame` moves the surviving entries
+of the frame to the end of the table) -/
+def EntryOK (g : Fsg) (h : Hist) (cur : Int) (e : Entry) : Prop :=
+  ∃ lid, e.link = some lid ∧ lid < g.links.size ∧ 0 ≤ e.pred ∧ e.pred.toNat < h.size ∧
+    (g.link lid).src = dest g (ent h e.pred.toNat) ∧
+    (if (g.link lid).wid < 0 then e.frame = (ent h e.pred.toNat).frame else (ent h e.pred.toNat).frame < e.frame) ∧
+    (ent h (h.size - 1)).frame ≤ e.frame ∧ e.frame < cur
+
+theorem ent_push_lt (h : Hist) (e : Entry) {i : Nat} (hi : i < h.size) : ent (h.push e) i = ent h i := by
+  unfold ent
+  simp [Array.getD, hi, Array.getElem_push, Nat.lt_succ_of_lt hi]
+
+theorem ent_push_eq (h : Hist) (e : Entry) : ent (h.push e) h.size = e := by
+  unfold ent
+  simp [Array.getD, Array.getElem_push]
+
+theorem WFHist.push {g : Fsg} {h : Hist} {cur : Int} {e : Entry} (wf : WFHist g h cur) (he : EntryOK g h cur e) :
+    WFHist g (h.push e) cur := by
+  obtain ⟨lid, hl, hlid, hp0, hplt, hsrc, hfr, hlast, hcur⟩ := he
+  have hsz : (h.push e).size = h.size + 1 := Array.size_push ..
+  have hne := wf.nonempty
+  refine ⟨by omega, ?_, ?_, ?_, ?_⟩
+  · rw [ent_push_lt h e hne]; exact wf.root
+  · intro i hi hlt
+    rw [hsz] at hlt
+    by_cases hi2 : i < h.size
+    · obtain ⟨lid', h1, h2, h3, h4, h5, h6⟩ := wf.step i hi hi2
+      rw [ent_push_lt h e hi2, ent_push_lt h e (by omega : (ent h i).pred.toNat < h.size)]
+      exact ⟨lid', h1, h2, h3, h4, h5, h6⟩
+    · have : i = h.size := by omega
+      subst this
+      rw [ent_push_eq, ent_push_lt h e hplt]
+      exact ⟨lid, hl, hlid, hp0, hplt, hsrc, hfr⟩
+  · intro i hi
+    rw [hsz] at hi
+    by_cases hi2 : i + 1 < h.size
+    · rw [ent_push_lt h e (by omega), ent_push_lt h e hi2]; exact wf.mono i hi2
+    · have : i + 1 = h.size := by omega
+      rw [this, ent_push_eq, ent_push_lt h e (by omega)]
+      have : i = h.size - 1 := by omega
+      rw [this]; exact hlast
+  · intro i hi
+    rw [hsz] at hi
+    by_cases hi2 : i < h.size
+    · rw [ent_push_lt h e hi2]; exact wf.below i hi2
+    · have : i = h.size := by omega
+      subst this
+      rw [ent_push_eq]; exact hcur
+
+theorem WFHist.advance {g : Fsg} {h : Hist} {cur cur' : Int} (wf : WFHist g h cur) (hc : cur ≤ cur') :
+    WFHist g h cur' :=
+  { wf with below := fun i hi => by have := wf.below i hi; omega }
+
+/-- the table right after `fsg_history_entry_add(NULL, -1, 0, -1, …)` in `fsg_search_start` -/
+theorem wf_start (g : Fsg) : WFHist g #[dummy] 0 := by
+  refine ⟨by simp, ⟨rfl, rfl, rfl, rfl⟩, ?_, ?_, ?_⟩
+  · intro i hi hlt; simp at hlt; omega
+  · intro i hi; simp at hi
+  · intro i hi
+    have : i = 0 := by simp at hi; omega
+    subst this
+    show (-1 : Int) < 0
+    omega
+
+/-- appending null-arc entries that hang off entries `< n` of the last frame `f`, in any order
+and any selection, keeps the table well-formed -/
+theorem wf_append_nulls {g : Fsg} {cur : Int} : ∀ (es : List Entry) (h : Hist) (n : Nat) (f : Int),
+    WFHist g h cur → n ≤ h.size → (ent h (h.size - 1)).frame = f →
+    (∀ e ∈ es, ∃ lid, e.link = some lid ∧ lid < g.links.size ∧ (g.link lid).wid < 0 ∧ 0 ≤ e.pred ∧ e.pred.toNat < n ∧
+      (g.link lid).src = dest g (ent h e.pred.toNat) ∧ e.frame = (ent h e.pred.toNat).frame ∧
+      (ent h e.pred.toNat).frame = f) →
+    WFHist g (es.foldl Array.push h) cur := by
+  intro es
+  induction es with
+  | nil => intro h n f wf _ _ _; exact wf
+  | cons e rest ih =>
+    intro h n f wf hn hf hall
+    obtain ⟨lid, hl, hlid, hw, hp0, hpn, hsrc, hfr, hpf⟩ := hall e (List.mem_cons_self ..)
+    have hb := wf.below e.pred.toNat (by omega)
+    have wf' : WFHist g (h.push e) cur := wf.push ⟨lid, hl, hlid, hp0, by omega, hsrc, by simp only [hw, if_true]; exact hfr,
+      by rw [hf, hfr, hpf]; exact Int.le_refl _, by rw [hfr]; exact hb⟩
+    simp only [List.foldl_cons]
+    have hsz : (h.push e).size = h.size + 1 := Array.size_push ..
+    refine ih (h.push e) n f wf' (by omega) ?_ ?_
+    · rw [hsz]
+      have : h.size + 1 - 1 = h.size := by omega
+      rw [this, ent_push_eq, hfr, hpf]
+    · intro e' he'
+      obtain ⟨lid', h1, h2, h3, h4, h5, h6, h7, h8⟩ := hall e' (List.mem_cons_of_mem _ he')
+      have hlt : e'.pred.toNat < h.size := by omega
+      rw [ent_push_lt h e hlt]
+      exact ⟨lid', h1, h2, h3, h4, h5, h6, h7, h8⟩
+
 end SSVerif.Hist
